@@ -27,7 +27,8 @@ RULE = ('case = one Union (Ellipsoid or cube-ellipsoid-mixture members, unit-res
         'from a generated landscape. Monitors: (a) z-test of exp(log_v) against the Monte-Carlo measure of '
         '{contains} (|z| < 6.1), (b) two-sample chi-square (p > 1e-9) of the bound\'s sample stream against '
         'reference points over cells = overlap multiplicity x spatial octants, (c) Ellipsoid.log_v against '
-        'log V_d - log|det B_inv|. Non-trivial = >= 2 member ellipsoids and >= 1 % of the bound\'s samples '
+        'log V_d - log|det B_inv|, (d) the stream is free of repeated points and repeated coordinate values and its '
+        'consecutive segments of 50 points are not over-dispersed in member composition. Non-trivial = >= 2 member ellipsoids and >= 1 % of the bound\'s samples '
         'at overlap multiplicity >= 2; distinct by (class, options, shape, dimension, members).')
 ASSUMPTIONS = ['false-alarm probability <= ~4e-9 per bound (two tests at 1e-9 each, two-sided)',
                'reference = uniform sampler over a union of axis-aligned boxes (independent code), filtered by the '
@@ -47,7 +48,7 @@ COMBOS = [
     ('NautilusBound', {'n_networks': 1, 'pool': 2, 'split_threshold': 1, 'roundtrip': True}),
     ('Union', {'bound_class': 'UnitCubeEllipsoidMixture', 'unit': True, 'roundtrip': True}),
 ]
-SHAPES = ['blobs', 'ring', 'parabola', 'corner', 'multi', 'blobs', 'wrapped', 'parabola', 'face', 'blobs', 'gauss']
+SHAPES = ['blobs', 'ring', 'parabola', 'corner', 'multi', 'free_dims', 'wrapped', 'free_dims', 'face', 'blobs', 'gauss']
 
 
 def gen_cases(tier, seed):
@@ -111,7 +112,7 @@ def run_case(spec):
         d = min(d, 3)
     obs = dict(bound_samples_histogrammed=0, reference_points_in_bound=0, reference_proposals=0,
                ellipsoid_volume_checks=0, members=0, cells_used=0, frac_multiplicity_ge2_max=0.0,
-               pool_bounds=0, roundtrip_bounds=0, trimmed_unions=0, z_volume_after_trim_abs_max=0.0, z_volume_abs_max=0.0)
+               pool_bounds=0, roundtrip_bounds=0, trimmed_unions=0, z_volume_after_trim_abs_max=0.0, segment_dispersion_tests=0, segment_dispersion_ratio_max=0.0, z_volume_abs_max=0.0)
     pool = None
     try:
         prob = boundgen.problem(rng, shape, d, n_live=int(rng.integers(250, 600)))
@@ -241,8 +242,37 @@ def run_case(spec):
             viols.append(dict(key='bound.samples-repeated.' + kind, kind=kind, opts=spec['opts'], shape=shape, d=d,
                               what='%d of %d points of the sample stream are repeats of earlier points (a uniform sampler '
                               'returns distinct points almost surely)' % (len(xs) - n_distinct, len(xs))))
+        # independent draws: no coordinate value may repeat either (pool workers that share a generator for some of the
+        # dimensions produce distinct rows with identical coordinates)
+        for col in range(xs.shape[1]):
+            n_col = len(np.unique(xs[:, col]))
+            if n_col != len(xs):
+                viols.append(dict(key='bound.coordinate-values-repeated.' + kind, kind=kind, opts=spec['opts'], shape=shape,
+                                  d=d, what='coordinate %d of the sample stream takes only %d distinct values in %d '
+                                  'draws' % (col, n_col, len(xs))))
+                break
         mult_s = _multiplicity(members, ys)
         mult_r = _multiplicity(members, ref)
+        # every batch the sampler takes from the stream must be uniform, not only the stream as a whole: the composition
+        # of consecutive segments of 50 points must not be over-dispersed relative to independent draws
+        if len(members) >= 2:
+            inside_m = np.array([b.contains(ys) for b in members])
+            frac = inside_m.mean(axis=1)
+            m_star = int(np.argmin(np.abs(frac - 0.5)))
+            p_hat = float(frac[m_star])
+            if 0.02 < p_hat < 0.98:
+                seg = 50
+                J = len(ys) // seg
+                k_j = inside_m[m_star][:J * seg].reshape(J, seg).sum(axis=1)
+                S = float(np.sum((k_j - seg * p_hat) ** 2) / (seg * p_hat * (1 - p_hat)))
+                p_disp = float(stats.chi2.sf(S, J - 1))
+                obs['segment_dispersion_tests'] += 1
+                obs['segment_dispersion_ratio_max'] = S / (J - 1)
+                if p_disp < P_MIN:
+                    viols.append(dict(key='bound.sample-stream-not-exchangeable.' + kind, kind=kind, opts=spec['opts'],
+                                      shape=shape, d=d, what='consecutive segments of %d samples are over-dispersed in their '
+                                      'share of member %d (dispersion %.1f times binomial over %d segments, p = %.2g): the '
+                                      'stream is not a sequence of independent uniform draws' % (seg, m_star, S / (J - 1), J, p_disp)))
         inside_s = bound.contains(xs)
         if np.any(mult_s == 0) or not np.all(inside_s):
             viols.append(dict(key='bound.sample-outside-bound.' + kind, kind=kind, opts=spec['opts'], shape=shape, d=d,
